@@ -53,16 +53,15 @@ def _spec_checks(ctx):
                 ("Shutdown_notrun.cfg", 1, "Shutdown of a server that is never run: every caller gets an error"),
                 ("Shutdown_live.cfg", 1, "fair behaviours: every Shutdown call returns, every hook starts, every entered request is answered")]
     else:
-        jobs = [("Shutdown_mc_thorough.cfg", 5, "standard transport: 2 connections x 2 requests x 2 callers x hooks {any speed, beyond the deadline}"),
-                ("Shutdown_mc_thorough3.cfg", 5, "standard transport: 3 connections x 2 callers x 1 hook"),
+        jobs = [("Shutdown_mc_thorough.cfg", 8, "standard transport: 2 connections x 2 requests x 2 callers x hooks {any speed, beyond the deadline}"),
                 ("Shutdown_mc_thorough_np.cfg", 3, "netpoll transport: 2 connections x 2 callers x 2 hooks"),
-                ("Shutdown_mc3.cfg", 3, "3 connections (busy / idle keep-alive / mid-request) x 1 caller x 1 hook"),
+                ("Shutdown_mc3.cfg", 4, "3 connections (busy / idle keep-alive / mid-request) x 1 caller x 1 hook"),
                 ("Shutdown_mc.cfg", 2, "2 connections x 2 callers x 1 hook"),
                 ("Shutdown_mcb.cfg", 1, "1 connection x 2 callers x hooks {any speed, beyond the deadline}"),
                 ("Shutdown_notrun.cfg", 1, "Shutdown of a server that is never run"),
                 ("Shutdown_live.cfg", 1, "fair behaviours, 1 connection x 1 caller x 2 hooks"),
-                ("Shutdown_live2.cfg", 2, "fair behaviours, 1 connection x 2 callers x 2 hooks (one beyond the deadline)"),
-                ("Shutdown_live3.cfg", 2, "fair behaviours, 2 connections x 1 caller x 2 hooks")]
+                ("Shutdown_live2.cfg", 2, "fair behaviours, 1 connection x 2 callers x 1 hook that ends beyond the deadline"),
+                ("Shutdown_live3.cfg", 2, "fair behaviours, netpoll, 2 connections x 1 caller x 1 hook")]
     with concurrent.futures.ThreadPoolExecutor(max_workers=len(jobs)) as ex:
         futs = [ex.submit(lib.spec_check, ctx, "Shutdown", cfg, w, 2400, None, 20, "3g", note) for cfg, w, note in jobs]
         for f in futs:
